@@ -168,7 +168,9 @@ func (b *Buffer) SetCleanerConfig(config CleanerConfig) error {
 	b.mutex.Lock()
 	defer b.mutex.Unlock()
 
-	b.cleaner = &config
+	// update in place: the pointer itself is read without the lock by ensure's double checked init,
+	// so replacing it here would race with every other method call
+	*b.cleaner = config
 
 	return nil
 }
